@@ -675,6 +675,20 @@ func (rc *replayCtx) evalClause(o *Obligation, rf *ReplayFile, outText string, a
 	script := fv.c.Script([]string{and(append(facts, not(t))...)}, nil)
 	// declarations of the concrete strings go right after the Str sort
 	script = strings.Replace(script, "(define-sort Str () Int)", "(define-sort Str () Int)\n"+strings.Join(decls, "\n"), 1)
+	{
+		// on a concrete run every instance the quantified prelude axioms could produce is pinned by the facts above;
+		// the axioms themselves only keep the solver from answering `sat`
+		var keep []string
+		for _, l := range strings.Split(script, "\n") {
+			if !strings.HasPrefix(l, "(assert (forall") {
+				keep = append(keep, l)
+			}
+		}
+		script = strings.Join(keep, "\n")
+	}
+	if dbg := os.Getenv("GOVC_DEBUG_REPLAY"); dbg != "" {
+		os.WriteFile(dbg, []byte(script), 0o644)
+	}
 	res, _, _ := runSolver(solvers[0], script, 30, "replay-eval")
 	if res != "sat" && res != "unsat" {
 		res, _, _ = runSolver(solvers[3], script, 30, "replay-eval")
